@@ -107,6 +107,9 @@ func (e *Engine) verifyFunc(fn *ssa.Function, fs *FuncSpec) (c *vctx) {
 	}
 	pos := fn.Pos()
 	for _, cl := range fs.Ensures {
+		if len(cl.Props) > 0 && e.curProp != "" && !hasProp(cl.Props, e.curProp) {
+			continue // clause belongs to other properties
+		}
 		t, err := env2.evalBool(cl.E)
 		if err != nil {
 			a.specError(cl, err)
